@@ -95,7 +95,7 @@ Definition pset_teSeen (s : rsst) : rsst :=
 (* cookie.go getCookieKey = decodeCookieArg(src[:IndexByte(src,'=')], skipQuotes=false): trims SP on both sides *)
 Definition getCookieKey (src : bytes) : bytes :=
   let src := match index_byte src EQS with Some n => firstn n src | None => src end in
-  stripSpace src.
+  stripSP src.
 
 Definition resp_header_step (cfg : hcfg) (noHTTP11 : bool) (st : rsst) (k v : bytes) (inner : bool)
   : R (step_res rsst) :=
